@@ -100,6 +100,8 @@ class StateTriggerDecorator(TriggerDecorator, ExpressionDecorator, AutoKwargsDec
 
     last_func_args: dict[str, Any]
     last_new_vars: dict[str, Any]
+    hold_func_args: dict[str, Any]
+    hold_new_vars: dict[str, Any]
 
     async def validate(self) -> None:
         """Validate and normalize arguments."""
@@ -192,12 +194,16 @@ class StateTriggerDecorator(TriggerDecorator, ExpressionDecorator, AutoKwargsDec
                     else:
                         _LOGGER.debug("state_hold started, %s", self)
                         self.true_entered_at = now
+                        # the run at the end of the hold carries the arguments of this first event
+                        self.hold_func_args, self.hold_new_vars = self.last_func_args, self.last_new_vars
 
             if state_hold_true_passed:
                 self.true_entered_at = None
-                await self.dispatch(
-                    DispatchData(self.last_func_args, trigger_context={"new_vars": self.last_new_vars})
-                )
+                if self.state_hold is None:
+                    func_args, new_vars = self.last_func_args, self.last_new_vars
+                else:
+                    func_args, new_vars = self.hold_func_args, self.hold_new_vars
+                await self.dispatch(DispatchData(func_args, trigger_context={"new_vars": new_vars}))
                 self.__test_handshake__ = None
         else:
             self.true_entered_at = None
@@ -215,7 +221,7 @@ class StateTriggerDecorator(TriggerDecorator, ExpressionDecorator, AutoKwargsDec
         if true_duration >= self.state_hold:
             self.true_entered_at = None
             await self.dispatch(
-                DispatchData(self.last_func_args, trigger_context={"new_vars": self.last_new_vars})
+                DispatchData(self.hold_func_args, trigger_context={"new_vars": self.hold_new_vars})
             )
 
     async def _cycle(self) -> None:
@@ -273,15 +279,18 @@ class StateTriggerDecorator(TriggerDecorator, ExpressionDecorator, AutoKwargsDec
                     notify_type, notify_info = await asyncio.wait_for(self.notify_q.get(), effective_timeout)
                 if notify_type != "state":
                     raise RuntimeError(f"Invalid notify_type {notify_type}, {self}")
-                self.last_new_vars = notify_info[0]
-                self.last_func_args = notify_info[1]
+                new_vars, func_args = notify_info
 
-                if ident_any_values_changed(self.last_func_args, self.state_trig_ident_any):
+                if ident_any_values_changed(func_args, self.state_trig_ident_any):
+                    self.last_new_vars, self.last_func_args = new_vars, func_args
                     trig_ok = True
-                elif ident_values_changed(self.last_func_args, self.state_trig_ident):
+                elif self.has_expression() and ident_values_changed(func_args, self.state_trig_ident):
+                    self.last_new_vars, self.last_func_args = new_vars, func_args
                     trig_ok = await self._is_trig_ok()
                 else:
-                    trig_ok = False
+                    # no any-change name matched and no watched name changed (eg, an attribute-only
+                    # update): nothing is evaluated, so the hold timers and recorded arguments stay
+                    continue
                 await self._check_new_state(trig_ok)
             except TimeoutError:
                 await self._check_state_hold()
